@@ -255,6 +255,15 @@ pub fn payloads() -> Vec<Payload> {
         true,
     ));
     v.push(p("dns-txt-ch", appdns::build_query(0x1339, 0x0100, &[(dns_labels("version.bind"), 16, 3)]), Via::UdpOnly, false));
+    // polyglots: cookie-less STUN requests whose transaction id also reads as a complete DNS IN/A
+    // query (id 0x0001, flags 0x0000 / 0x0008, one question "ab"); the signature set decides: STUN
+    v.push(p("stun-classic-dns-polyglot", b"\x00\x01\x00\x00\x00\x01\x00\x00\x00\x00\x00\x00\x02ab\x00\x00\x01\x00\x01".to_vec(), Via::UdpOnly, true));
+    v.push(p(
+        "stun-change-dns-polyglot",
+        b"\x00\x01\x00\x08\x00\x01\x00\x00\x00\x00\x00\x00\x02ab\x00\x00\x01\x00\x01\x00\x03\x00\x04\x00\x00\x00\x02".to_vec(),
+        Via::UdpOnly,
+        true,
+    ));
     v.push(p("garbage", b"\x01\x02\x03hello world, this is not a protocol".to_vec(), Via::Both, false));
     v
 }
